@@ -1,3 +1,6 @@
+(* STATUS NOTE (third session): remarks of the form "NOT PROVED" in the comments below were written when the first theorems of this
+   file were stated; theorems added further down in this file supersede them.  The current status of the property is the row of
+   DESIGN.md section 14.4; the premises that remain are listed in DESIGN.md section 14.9. *)
 (* C09 — Insertion is canonical: known terms create nothing, lookup agrees with add.
    Model: EGraph/Model.v (+ Model9.v for lookup_rec_expr).
    PROVED for every state and node: if lookup finds a node, inserting it returns exactly that
